@@ -89,7 +89,7 @@ def run_main(argv):
 
 
 def build_sync_project(case, d, states):
-    base = {"ir": case["ir"], "stale_ir": case["stale_ir"], "truth": case["truth"], "method": False,
+    base = {"ir": case["ir"], "stale_ir": case["stale_ir"], "truth": case["truth"], "method": False, "nested": False,
             "states": {k: states.get(k) for k in KEYS if k != case["truth"]}}
     paths, gold, _ = c09.setup_project(dict(base), d)
     return paths
